@@ -2137,12 +2137,15 @@ class Measurement:
             return NotImplemented
 
         measurand = self.measurand**exponent
+        if exponent == 0:
+            return Measurement(measurand, 0)
+
         uncertainty = math.sqrt(
             _pow(
                 _mul(
                     exponent,
                     _mul(
-                        _pow(self.measurand.magnitude, 2),
+                        _pow(self.measurand.magnitude, exponent - 1),
                         self.uncertainty.magnitude,
                     ),
                 ),
